@@ -25,21 +25,53 @@ def packer(name, bits, ncalls, dmin, dmax, timeout, extra=(), nmax=None, desc=''
     maxblk = tmax // block + 2
     unwind = max(callbytes, maxblk, (block * bits) // 8, 8, ncalls) + 3
     blkbytes = (block * bits) // 8
-    us = ['wr_data_inner.2:%d' % (nmax // block + 3), 'wr_data_inner.0:%d' % (blkbytes + 3), 'is_mem_const.0:%d' % (blkbytes + 2),
-          'jls_fsr_close.3:17']
-    if dmin == 0 and dmax == 0:
-        # the gap/overlap branches are excluded by delta == 0: cut their loops, the unwinding assertions prove they are not entered
-        us += ['jls_wr_fsr_data.%d:1' % i for i in range(10)]
-    return Obl(name, 'c01_packer.c', units=['wr_fsr.c'], seams={'wr_fsr.c': ['jls_core_fsr_summary1']},
+    ov = dmin < 0
+    gap = dmax > 0
+    scratch = 16                                      # bytes (hook: 2 words)
+    fill_per_iter = max(1, (scratch * 8) // bits)    # samples per gap-fill iteration
+    ut = [
+        ('wr_data_inner', r'while \(data_length\)', (nmax + max(dmax, 0)) // block + 3),
+        # the carry loop exists only for sub-byte widths; for >= 8-bit samples the branch is infeasible (cut; the unwinding assertion justifies it)
+        ('wr_data_inner', r'while \(bits\)', (blkbytes + 3) if bits < 8 else 1),
+        ('wr_data_inner', r'ROE\(', 2),
+        ('is_mem_const', r'while \(m < m_end\)', (blkbytes + 2) if bits <= 8 else 1),
+        ('jls_fsr_close', r'for \(size_t i = 1', 17),
+        # gap/overlap branches: bounded when the obligation allows them, cut (bound 1) when delta excludes them
+        ('jls_wr_fsr_data', r'while \(data_length\)', 4 if (ov and bits < 8) else 1),
+        ('jls_wr_fsr_data', r'idx < sz;', (min(scratch, callbytes) + 2) if (ov and bits < 8) else 1),
+        ('jls_wr_fsr_data', r'idx < buf_sz', (scratch // 4 + 2) if (gap and bits == 32) else 1),
+        ('jls_wr_fsr_data', r'sizeof\(double\)', (scratch // 8 + 2) if (gap and bits == 64) else 1),
+        ('jls_wr_fsr_data', r'while \(skip\)', ((max(dmax, 0) + fill_per_iter - 1) // fill_per_iter + 2) if gap else 1),
+        ('jls_wr_fsr_data', r'ROE\(|JLS_LOG', 2),
+    ]
+    us = []
+    ob = Obl(name, 'c01_packer.c', units=['wr_fsr.c'], seams={'wr_fsr.c': ['jls_core_fsr_summary1']},
                defines=HOOKS + ['BITS=%d' % bits, 'NCALLS=%d' % ncalls, 'DMIN=%d' % dmin, 'DMAX=%d' % dmax, 'NMAX=%d' % nmax] + list(extra),
-               unwind=unwind, unwindset=us, objbits=12, timeout=timeout, backend=PORTFOLIO, tiers=tiers,
+               unwind=unwind, unwindset=us, objbits=12, timeout=timeout, backend=PORTFOLIO, tiers=tiers, mem_gb=24,
                desc=desc or 'writer packer, %d-bit samples, %d calls, block %d samples' % (bits, ncalls, block),
                bound='block=%d samples, <=%d samples per call, %d calls, delta in [%d,%d], first id within +-2^40, scratch 2 words (hook)' % (block, nmax, ncalls, dmin, dmax),
                assumes=['each call starts at or after the first sample id', 'jls_core_wr_data stub models the real function only by remembering the last data chunk offset'])
+    ob.unwind_text = ut
+    return ob
+
+
+def reader(name, bits, nblk, timeout, tiers=('quick', 'thorough')):
+    block = BLOCKS[bits]
+    blkbytes = (block * bits) // 8
+    ob = Obl(name, 'c01_reader.c', units=['core.c', 'buffer.c'], seams={'core.c': ['jls_core_rd_fsr_data0']},
+             defines=['JLS_VERIF_SIGNAL_COUNT=2', 'JLS_VERIF_SOURCE_COUNT=2', 'JLS_VERIF_FSR_BUFFER_U64=2', 'JLS_VERIF_BUF_DEFAULT_SIZE=64', 'JLS_VERIF_BUF_STRING_SIZE=16',
+                      'BITS=%d' % bits, 'NBLK=%d' % nblk],
+             unwind=max(nblk * blkbytes + 6, nblk + 5, 12), timeout=timeout, backend=PORTFOLIO, tiers=tiers, objbits=10,
+             desc='reader copy kernel jls_core_fsr, %d-bit samples, symbolic window over %d blocks of %d samples, symbolic first sample id' % (bits, nblk, block),
+             bound='signal of 1..%d samples in %d blocks, any window inside it, |first id| < 2^40' % (nblk * block, nblk),
+             assumes=['jls_core_rd_fsr_data0 stub = contract of the real function (block that contains the id, header + packed samples)', 'cached signal length'])
+    return ob
 
 
 def obligations(tier):
     o = []
+    for bits in WIDTHS:
+        o.append(reader('O2_reader_w%d' % bits, bits, 3, 600 if tier == 'quick' else 1800))
     for bits in WIDTHS:
         o.append(packer('O1_packer_w%d_1call' % bits, bits, 1, 0, 0, 300))
         o.append(packer('O1_packer_w%d_2calls' % bits, bits, 2, 0, 0, 600 if tier == 'quick' else 1800, nmax=BLOCKS[bits] + 3))
